@@ -2,8 +2,8 @@
 from .. import gen_scripts as G, scriptcheck as S
 
 NAMESPACE = "Rbp.Props.C05"
-REQUIRED = ["p2pkh_iff_template", "p2sh_iff_template", "template_verdicts", "opreturn_unspendable_no_address", "instructions_roundtrip"]
-LEAN_FILES = ["Rbp/Model/Script.lean", "Rbp/Model/Addr.lean", "Rbp/Proofs/Templates.lean", "Rbp/Proofs/OpReturn.lean"]
+REQUIRED = ["p2pkh_iff_template", "p2sh_iff_template", "template_verdicts", "opreturn_unspendable_no_address", "instructions_roundtrip", "primitives_match_published_vectors"]
+LEAN_FILES = ["Rbp/Model/Script.lean", "Rbp/Model/Addr.lean", "Rbp/Proofs/Templates.lean", "Rbp/Proofs/OpReturn.lean", "Rbp/Proofs/Vectors.lean"]
 RULE = ("script verdicts (type tag, address) of the real eval_from_bytes vs the Lean model on version bytes 00 and 6f; always-on boundary families "
         "(11 canonical templates with their truncations / one-byte extensions / one-byte substitutions — exhaustive in thorough —, 256 leading opcodes x 5 tails, "
         "witness versions x program lengths 0..42 incl. off-by-one lengths, m-of-n grid 0..17 incl. wrong/non-pushnum n) + seeded structure-directed bulk with 35% "
